@@ -573,6 +573,51 @@ def rule_g(ctx: Context, R: Reporter, vf: FuncInfo):
     R.floor("C20.g", "typed returns of the volume metric", n, 2)
 
 
+def rule_h(ctx: Context, R: Reporter, vf: FuncInfo):
+    """C20.h  per-coordinate typing of the volume metric (x_i -> d_i x_i, a diagonal invertible linear map) for samples
+    whose covariance has full rank -- the case the property quantifies over; the branch guarded by the
+    rank-deficiency test is the documented degenerate fallback and is not taken under this assumption.  The
+    Mahalanobis distances must come out unit-free and nothing on the way may add entries that carry different
+    units (a trace ridge on a full-rank covariance, a mean over coordinates, a reduction over the wrong axis)."""
+    from ..coord import INVC, CoordInterp, co
+
+    ci = CoordInterp(lambda c: ctx.res.external_name(vf, c))
+
+    def assume(test):
+        # `matrix_rank(cov) < n_dim` is false for the samples the property is about
+        for x in ast.walk(test):
+            if isinstance(x, ast.Call) and (ctx.res.external_name(vf, x) or "") == "numpy.linalg.matrix_rank":
+                if isinstance(test, ast.Compare) and len(test.ops) == 1 and isinstance(test.ops[0], (ast.Lt, ast.LtE)) and test.left is x:
+                    return False if isinstance(test.ops[0], ast.Lt) else None
+                return None
+        return None
+
+    ci.assume = assume
+    rets = ci.run(vf.node, {vf.params[0]: co(None, 1)})
+    n = 0
+    for (r, t) in rets:
+        n += 1
+        if t.kind == "unknown" and not ci.conflicts:
+            raise AnalysisError(f"C20.h: return `{unparse(r)[:50]}` of the volume metric not typable per coordinate ({t.why})")
+        ok = t.kind == "arr" and not t.scaled
+        if t.kind in ("conflict", "unknown"):
+            continue
+        R.check("C20.h", "the volume metric is unit-free under per-coordinate scaling of the samples", ok, vf, r,
+                msg=f"{vf.short}: `{unparse(r)[:50]}` has per-coordinate type {t!r}; invariance under diagonal linear maps requires a unit-free value", key=f"volume-coord-type:{norm_text(r.value)[:30] if r.value is not None else ''}")
+    seen = set()
+    for c in ci.conflicts:
+        k = norm_text(c.node)[:80] if c.node is not None else c.why
+        if k in seen:
+            continue
+        seen.add(k)
+        R.check("C20.h", "the volume metric never mixes entries that carry the units of different coordinates (full-rank samples)", False, vf, c.node if c.node is not None else vf.node,
+                msg=f"{vf.short}: {c.why} at `{unparse(c.node)[:70] if c.node is not None else ''}` on the full-rank path: the metric changes under a per-coordinate rescaling of the samples, "
+                    f"a special case of the invertible affine maps it must be invariant under", key=f"volume-coord-conflict:{k}")
+    if not ci.conflicts:
+        R.check("C20.h", "per-coordinate typing of the volume metric closed without conflicts on the full-rank path", True, vf, vf.node, key="volume-coord-clean")
+    R.floor("C20.h", "typed returns of the volume metric (per coordinate)", n, 2)
+
+
 def run(ctx: Context, R: Reporter):
     tf = trim_fn(ctx)
     vf = volume_fn(ctx)
@@ -584,6 +629,7 @@ def run(ctx: Context, R: Reporter):
     R.guard(rule_cov, ctx, R, [tf, vf] + ef)
     R.guard(rule_f, ctx, R, vf)
     R.guard(rule_g, ctx, R, vf)
+    R.guard(rule_h, ctx, R, vf)
 
 
 def variants():
@@ -591,6 +637,9 @@ def variants():
 
     tl = "tempest/tools.py"
     return [
+        Variant("h-ridge-on-full-rank", "bad", replace_expr(tl, "volume_variation", "np.linalg.matrix_rank(cov) < n_dim", "not np.linalg.matrix_rank(cov) < n_dim"), ["C20.h"], quick=True),
+        Variant("h-mean-over-coordinates", "bad", replace_expr(tl, "volume_variation", "np.sum(x * w[:, np.newaxis], axis=0)", "np.sum(x * w[:, np.newaxis], axis=1)"), ["C20.h"]),
+        Variant("h-unconditional-trace-ridge", "bad", replace_stmt(tl, "volume_variation", "cov = np.dot(xc.T, xc * w[:, np.newaxis])", "cov = np.dot(xc.T, xc * w[:, np.newaxis])\ncov = cov + 1e-9 * np.trace(cov) * np.eye(n_dim)"), ["C20.h"]),
         Variant("g-rank-absolute-tol", "bad", replace_expr(tl, "volume_variation", "np.linalg.matrix_rank(cov)", "np.linalg.matrix_rank(cov, tol=1e-8)"), ["C20.g"], quick=True),
         Variant("g-rank-default-tol-benign", "benign", replace_expr(tl, "volume_variation", "np.linalg.matrix_rank(cov)", "np.linalg.matrix_rank(cov, tol=None)")),
         Variant("b-argsort-rank-trim", "bad", replace_stmt(tl, "trim_weights", "mask = weights >= threshold", "mask = np.sort(np.argsort(weights)[int(np.ceil(p / 100 * (len(weights) - 1))):])"), ["C20.b"]),
